@@ -18,6 +18,25 @@ inline void xptr_bounds(std::ptrdiff_t lo, std::ptrdiff_t hi) { g_lo = lo; g_hi 
 // optional: a harness with several storages / element types registers a predicate on the BYTE offset from g_origin instead
 inline bool (*g_in_bounds)(std::ptrdiff_t byte_off) = nullptr;
 
+// Owning arrays: the registered storage is a SET of live blocks (byte offsets from g_origin), maintained by the allocator
+// (harness/common/fancy_alloc.hpp).  Once a block has been added the tracking pointer checks dereferences against the set
+// instead of the single range above (which views.cpp keeps using unchanged).
+struct xptr_block { std::ptrdiff_t lo, hi; };  // [lo, hi) in bytes
+inline bool g_use_blocks = false;
+inline int g_nblocks = 0;
+inline xptr_block g_blocks[4096];
+inline void xptr_block_add(std::ptrdiff_t lo, std::ptrdiff_t hi) {
+	g_use_blocks = true;
+	if(g_nblocks < 4096) { g_blocks[g_nblocks++] = xptr_block{lo, hi}; }
+}
+inline void xptr_block_remove(std::ptrdiff_t lo) {
+	for(int i = 0; i < g_nblocks; ++i) { if(g_blocks[i].lo == lo) { g_blocks[i] = g_blocks[--g_nblocks]; return; } }
+}
+inline bool xptr_in_blocks(std::ptrdiff_t lo, std::ptrdiff_t hi) {
+	for(int i = 0; i < g_nblocks; ++i) { if(g_blocks[i].lo <= lo && hi <= g_blocks[i].hi) { return true; } }
+	return false;
+}
+
 constexpr std::ptrdiff_t null_off = -(static_cast<std::ptrdiff_t>(1) << 60);
 
 template<class T>
@@ -46,7 +65,12 @@ class xptr {
 
 	reference operator*() const {
 #if PTR_KIND == 2
-		if(g_in_bounds != nullptr ? !g_in_bounds(off_ * static_cast<std::ptrdiff_t>(sizeof(T))) : (off_ < g_lo || off_ >= g_hi)) { ++g_oob_deref; }
+		if(g_in_bounds != nullptr) {
+			if(!g_in_bounds(off_ * static_cast<std::ptrdiff_t>(sizeof(T)))) { ++g_oob_deref; }
+		} else if(g_use_blocks) {
+			auto const b = off_ * static_cast<std::ptrdiff_t>(sizeof(T));
+			if(!xptr_in_blocks(b, b + static_cast<std::ptrdiff_t>(sizeof(T)))) { ++g_oob_deref; }
+		} else if(off_ < g_lo || off_ >= g_hi) { ++g_oob_deref; }
 #endif
 		return *(static_cast<T*>(const_cast<std::remove_cv_t<T>*>(static_cast<std::remove_cv_t<T> const*>(g_origin))) + off_);
 	}
